@@ -178,7 +178,38 @@ def latex_typer(node, st):
     if isinstance(node, ast.Attribute):
         if src.startswith('token.'):
             return ('str', [hole('ANY', src)])
+    if isinstance(node, ast.Name):
+        v = st.env.get(node.id)
+        if v and v[0] == 'elem' and v[1] == 'self.packages.items()':
+            # a package name / its option list: renderer vocabulary (lemma sink:LaTeXRenderer.packages-literal)
+            return ('str', [hole('PKG', src)])
     return None
+
+
+def packages_literal(src_text):
+    """Every write to self.packages stores a literal, brace- and backslash-free package name with a
+    literal list of such option strings (or resets the dict), and nothing else mutates it."""
+    tree = ast.parse(src_text)
+    bad = []
+
+    def plain(x):
+        return isinstance(x, ast.Constant) and isinstance(x.value, str) and not (set(x.value) & set('{}\\$#&_%^~'))
+    for n in ast.walk(tree):
+        if isinstance(n, (ast.Assign, ast.AugAssign)):
+            for tg in (n.targets if isinstance(n, ast.Assign) else [n.target]):
+                u = ast.unparse(tg)
+                if u == 'self.packages':
+                    if not (isinstance(n, ast.Assign) and isinstance(n.value, ast.Dict) and not n.value.keys):
+                        bad.append(ast.unparse(n))
+                elif u.startswith('self.packages['):
+                    ok = isinstance(n, ast.Assign) and isinstance(tg, ast.Subscript) and plain(tg.slice) and \
+                        isinstance(n.value, ast.List) and all(plain(e) for e in n.value.elts)
+                    if not ok:
+                        bad.append(ast.unparse(n))
+        if isinstance(n, ast.Call) and isinstance(n.func, ast.Attribute) and ast.unparse(n.func.value) == 'self.packages' \
+                and n.func.attr not in ('items', 'keys', 'values', 'get'):
+            bad.append(ast.unparse(n))
+    return bad
 
 
 def latex_effects(node, st):
@@ -205,7 +236,7 @@ def scan_latex(segs, method):
                 elif verbatim == 'lstlisting':
                     out.append(('verbatim-terminator', 'verbatim body can contain \\end{lstlisting}', src))
                 continue
-            if t in ('WF', 'LTEXT', 'MATH'):
+            if t in ('WF', 'LTEXT', 'MATH', 'PKG'):
                 continue
             if t == 'LURL':
                 continue
@@ -379,6 +410,10 @@ def sink_lemmas(repo):
         return {'results': [mk('sink:LaTeXRenderer:resolve', 'undecided', 0, PROPS, detail=str(e), kind='resolve')]}
     escape_url_lemma(eng, defs, src, results, sha)
     verb_lemma(repo, defs, results)
+    bad = packages_literal(src)
+    results.append(mk('sink:LaTeXRenderer.packages-literal', 'proved' if not bad else 'refuted', 0, PROPS, fn='LaTeXRenderer',
+                      text='self.packages is only ever reset to {} or given a literal brace-free package name with a literal option list',
+                      model=None if not bad else {'writes': bad[:4]}))
     for mname in sorted(n for n in defs if n.startswith('render_') and n not in ('render_raw_text', 'render_inline_code')):
         fdef = defs[mname]
         sha['%s:LaTeXRenderer.%s' % (MOD, mname)] = hashlib.sha256(ast.get_source_segment(src, fdef).encode()).hexdigest()
